@@ -55,6 +55,17 @@ class CachingStreamWrapper(io.IOBase):
             # non-blocking raw stream has no data at the moment
             return read_from_cache or None
 
+        while n != -1 and read_from_raw and len(read_from_raw) < n:
+            # a raw stream may hand out less than asked for although
+            # it has more: only nothing at all means that it has run
+            # dry (for now, or for good)
+            more = self._raw.read(n - len(read_from_raw))
+
+            if not more:
+                break
+
+            read_from_raw += more
+
         self._cache.write(read_from_raw)
 
         return read_from_cache + read_from_raw
